@@ -8,11 +8,15 @@ package lib
 // and a blob server for manifest chunks behind that location.
 
 import (
+	"bytes"
+	"compress/gzip"
 	"context"
 	"errors"
 	"fmt"
+	"io/ioutil"
 	"net"
 	"net/http"
+	"os"
 	"sort"
 	"strings"
 	"sync"
@@ -44,8 +48,10 @@ var ErrStoreBudget = errors.New("verif: store call budget exceeded")
 // calls beyond it fail with ErrStoreBudget (soft limit); calls beyond hardFactor x
 // budget invoke OnRunaway (the code under test ignores the errors and keeps going).
 type CountingStore struct {
-	Inner     filer.FilerStore
 	OnRunaway func(used int64)
+
+	innerMu sync.RWMutex
+	inner   filer.FilerStore
 
 	total    int64
 	budget   int64
@@ -58,7 +64,21 @@ type CountingStore struct {
 const hardFactor = 50
 
 func NewCountingStore(inner filer.FilerStore) *CountingStore {
-	return &CountingStore{Inner: inner, byKind: make(map[string]int64)}
+	return &CountingStore{inner: inner, byKind: make(map[string]int64)}
+}
+
+// Inner returns the real store behind the counter.
+func (c *CountingStore) Inner() filer.FilerStore {
+	c.innerMu.RLock()
+	defer c.innerMu.RUnlock()
+	return c.inner
+}
+
+// SetInner swaps the real store (harness-side: a fresh empty store for the next cases).
+func (c *CountingStore) SetInner(s filer.FilerStore) {
+	c.innerMu.Lock()
+	c.inner = s
+	c.innerMu.Unlock()
 }
 
 func (c *CountingStore) step(kind string) error {
@@ -108,101 +128,101 @@ func (c *CountingStore) ByKind() map[string]int64 {
 	return m
 }
 
-func (c *CountingStore) GetName() string { return c.Inner.GetName() }
+func (c *CountingStore) GetName() string { return c.Inner().GetName() }
 func (c *CountingStore) Initialize(configuration util.Configuration, prefix string) error {
-	return c.Inner.Initialize(configuration, prefix)
+	return c.Inner().Initialize(configuration, prefix)
 }
 func (c *CountingStore) InsertEntry(ctx context.Context, e *filer.Entry) error {
 	if err := c.step("insert"); err != nil {
 		return err
 	}
-	return c.Inner.InsertEntry(ctx, e)
+	return c.Inner().InsertEntry(ctx, e)
 }
 func (c *CountingStore) UpdateEntry(ctx context.Context, e *filer.Entry) error {
 	if err := c.step("update"); err != nil {
 		return err
 	}
-	return c.Inner.UpdateEntry(ctx, e)
+	return c.Inner().UpdateEntry(ctx, e)
 }
 func (c *CountingStore) FindEntry(ctx context.Context, p util.FullPath) (*filer.Entry, error) {
 	if err := c.step("find"); err != nil {
 		return nil, err
 	}
-	return c.Inner.FindEntry(ctx, p)
+	return c.Inner().FindEntry(ctx, p)
 }
 func (c *CountingStore) DeleteEntry(ctx context.Context, p util.FullPath) error {
 	if err := c.step("delete"); err != nil {
 		return err
 	}
-	return c.Inner.DeleteEntry(ctx, p)
+	return c.Inner().DeleteEntry(ctx, p)
 }
 func (c *CountingStore) DeleteFolderChildren(ctx context.Context, p util.FullPath) error {
 	if err := c.step("deleteFolderChildren"); err != nil {
 		return err
 	}
-	return c.Inner.DeleteFolderChildren(ctx, p)
+	return c.Inner().DeleteFolderChildren(ctx, p)
 }
 func (c *CountingStore) ListDirectoryEntries(ctx context.Context, dirPath util.FullPath, startFileName string, includeStartFile bool, limit int64, eachEntryFunc filer.ListEachEntryFunc) (string, error) {
 	if err := c.step("list"); err != nil {
 		return "", err
 	}
-	return c.Inner.ListDirectoryEntries(ctx, dirPath, startFileName, includeStartFile, limit, eachEntryFunc)
+	return c.Inner().ListDirectoryEntries(ctx, dirPath, startFileName, includeStartFile, limit, eachEntryFunc)
 }
 func (c *CountingStore) ListDirectoryPrefixedEntries(ctx context.Context, dirPath util.FullPath, startFileName string, includeStartFile bool, limit int64, prefix string, eachEntryFunc filer.ListEachEntryFunc) (string, error) {
 	if err := c.step("prefixList"); err != nil {
 		return "", err
 	}
-	return c.Inner.ListDirectoryPrefixedEntries(ctx, dirPath, startFileName, includeStartFile, limit, prefix, eachEntryFunc)
+	return c.Inner().ListDirectoryPrefixedEntries(ctx, dirPath, startFileName, includeStartFile, limit, prefix, eachEntryFunc)
 }
 func (c *CountingStore) BeginTransaction(ctx context.Context) (context.Context, error) {
 	if err := c.step("begin"); err != nil {
 		return ctx, err
 	}
-	return c.Inner.BeginTransaction(ctx)
+	return c.Inner().BeginTransaction(ctx)
 }
 func (c *CountingStore) CommitTransaction(ctx context.Context) error {
 	if err := c.step("commit"); err != nil {
 		return err
 	}
-	return c.Inner.CommitTransaction(ctx)
+	return c.Inner().CommitTransaction(ctx)
 }
 func (c *CountingStore) RollbackTransaction(ctx context.Context) error {
 	_ = c.step("rollback")
-	return c.Inner.RollbackTransaction(ctx)
+	return c.Inner().RollbackTransaction(ctx)
 }
 func (c *CountingStore) KvPut(ctx context.Context, key []byte, value []byte) error {
 	if err := c.step("kvput"); err != nil {
 		return err
 	}
-	return c.Inner.KvPut(ctx, key, value)
+	return c.Inner().KvPut(ctx, key, value)
 }
 func (c *CountingStore) KvGet(ctx context.Context, key []byte) ([]byte, error) {
 	if err := c.step("kvget"); err != nil {
 		return nil, err
 	}
-	return c.Inner.KvGet(ctx, key)
+	return c.Inner().KvGet(ctx, key)
 }
 func (c *CountingStore) KvDelete(ctx context.Context, key []byte) error {
 	if err := c.step("kvdelete"); err != nil {
 		return err
 	}
-	return c.Inner.KvDelete(ctx, key)
+	return c.Inner().KvDelete(ctx, key)
 }
-func (c *CountingStore) Shutdown() { c.Inner.Shutdown() }
+func (c *CountingStore) Shutdown() { c.Inner().Shutdown() }
 
 // BucketAware is forwarded when the real store has it (leveldb3).
 func (c *CountingStore) OnBucketCreation(bucket string) {
-	if ba, ok := c.Inner.(filer.BucketAware); ok {
+	if ba, ok := c.Inner().(filer.BucketAware); ok {
 		ba.OnBucketCreation(bucket)
 	}
 }
 func (c *CountingStore) OnBucketDeletion(bucket string) {
-	if ba, ok := c.Inner.(filer.BucketAware); ok {
+	if ba, ok := c.Inner().(filer.BucketAware); ok {
 		ba.OnBucketDeletion(bucket)
 	}
 }
 func (c *CountingStore) CanDropWholeBucket() bool {
-	if ba, ok := c.Inner.(filer.BucketAware); ok {
+	if ba, ok := c.Inner().(filer.BucketAware); ok {
 		return ba.CanDropWholeBucket()
 	}
 	return false
@@ -232,6 +252,10 @@ type BlobMaster struct {
 	blobReads          int64
 	batchDeleted       int64
 	assignCalls        int64
+	assignAllowed      int64
+	assignKey          int64
+	uploads            int64
+	gzipped            map[string]bool
 	collectionsDeleted []string
 	stop               []func()
 }
@@ -266,10 +290,57 @@ func (b *BlobMaster) KeepConnected(stream master_pb.Seaweed_KeepConnectedServer)
 // connection to the master be closed after a few failures (pb.WithCachedGrpcClient),
 // breaking every KeepConnected stream of the process; a success would make the filer
 // write its log files into the namespace under test. The flush goroutine just waits.
+//
+// AllowAssign(n) lets the next n calls succeed (file id on the announced volume, url
+// of the blob server, which then accepts the upload): used by the one C20 case that
+// drives the filer's own MaybeManifestize/saveAsChunk in-process, in a fresh world
+// that is younger than the one-minute flush interval.
 func (b *BlobMaster) Assign(ctx context.Context, req *master_pb.AssignRequest) (*master_pb.AssignResponse, error) {
 	atomic.AddInt64(&b.assignCalls, 1)
+	if atomic.AddInt64(&b.assignAllowed, -1) >= 0 {
+		key := atomic.AddInt64(&b.assignKey, 1)
+		return &master_pb.AssignResponse{Fid: Fid(b.Vid, uint64(0x7000000+key), 0x5eed5eed), Url: b.BlobAddr, PublicUrl: b.BlobAddr, Count: 1}, nil
+	}
+	atomic.StoreInt64(&b.assignAllowed, 0)
 	<-ctx.Done()
 	return nil, ctx.Err()
+}
+
+// AllowAssign makes the next n Assign calls succeed.
+func (b *BlobMaster) AllowAssign(n int64) { atomic.StoreInt64(&b.assignAllowed, n) }
+
+// GetBlob returns the (uncompressed) content stored under a file id.
+func (b *BlobMaster) GetBlob(fid string) ([]byte, bool) {
+	b.mu.Lock()
+	data, ok := b.blobs[fid]
+	gz := b.gzipped[fid]
+	b.mu.Unlock()
+	if ok && gz {
+		zr, err := gzip.NewReader(bytes.NewReader(data))
+		if err != nil {
+			return nil, false
+		}
+		out, err := ioutil.ReadAll(zr)
+		if err != nil {
+			return nil, false
+		}
+		return out, true
+	}
+	return data, ok
+}
+
+// ManifestChildren decodes the manifest blob stored under fid (nil if there is none).
+func (b *BlobMaster) ManifestChildren(fid string) []*filer_pb.FileChunk {
+	data, ok := b.GetBlob(fid)
+	if !ok {
+		return nil
+	}
+	m := &filer_pb.FileChunkManifest{}
+	if err := proto.Unmarshal(data, m); err != nil {
+		return nil
+	}
+	filer_pb.AfterEntryDeserialization(m.Chunks)
+	return m.Chunks
 }
 
 func (b *BlobMaster) CollectionDelete(ctx context.Context, req *master_pb.CollectionDeleteRequest) (*master_pb.CollectionDeleteResponse, error) {
@@ -301,21 +372,51 @@ func (b *BlobMaster) PutBlob(fid string, data []byte) {
 
 func (b *BlobMaster) ServeHTTP(w http.ResponseWriter, req *http.Request) {
 	fid := strings.TrimPrefix(req.URL.Path, "/")
+	if req.Method == http.MethodPost || req.Method == http.MethodPut {
+		// upload as operation.upload_content sends it: one multipart part, optionally gzip-encoded
+		mr, err := req.MultipartReader()
+		if err != nil {
+			http.Error(w, err.Error(), http.StatusBadRequest)
+			return
+		}
+		part, err := mr.NextPart()
+		if err != nil {
+			http.Error(w, err.Error(), http.StatusBadRequest)
+			return
+		}
+		data, _ := ioutil.ReadAll(part)
+		b.mu.Lock()
+		b.blobs[fid] = data
+		b.gzipped[fid] = part.Header.Get("Content-Encoding") == "gzip"
+		b.mu.Unlock()
+		atomic.AddInt64(&b.uploads, 1)
+		w.Header().Set("Content-Type", "application/json")
+		w.WriteHeader(http.StatusCreated)
+		_, _ = fmt.Fprintf(w, `{"name":"","size":%d,"eTag":"verif"}`, len(data))
+		return
+	}
 	b.mu.Lock()
 	data, ok := b.blobs[fid]
+	gz := b.gzipped[fid]
 	b.mu.Unlock()
 	if !ok {
 		http.Error(w, "no such blob", http.StatusNotFound)
 		return
 	}
 	atomic.AddInt64(&b.blobReads, 1)
+	if gz {
+		w.Header().Set("Content-Encoding", "gzip")
+	}
 	w.Header().Set("Content-Length", fmt.Sprint(len(data)))
 	_, _ = w.Write(data)
 }
 
+// Uploads returns how many blobs the filer uploaded to the blob server.
+func (b *BlobMaster) Uploads() int64 { return atomic.LoadInt64(&b.uploads) }
+
 // StartBlobMaster starts the fake master and the blob server on fresh loopback ports.
 func StartBlobMaster(r *Run) *BlobMaster {
-	b := &BlobMaster{Vid: 7, blobs: make(map[string][]byte)}
+	b := &BlobMaster{Vid: 7, blobs: make(map[string][]byte), gzipped: make(map[string]bool)}
 	mp, bp := FreePort(), FreePort()
 	for bp == mp {
 		bp = FreePort()
@@ -351,8 +452,13 @@ func (b *BlobMaster) Stop() {
 }
 
 // Fid formats a file id in the canonical form the filer uses after a store round trip.
+// (needle.FileId.String: key and cookie as bytes, leading zero bytes of the key stripped).
 func Fid(vid uint32, key uint64, cookie uint32) string {
-	return fmt.Sprintf("%d,%x%08x", vid, key, cookie)
+	k := fmt.Sprintf("%x", key)
+	if len(k)%2 == 1 {
+		k = "0" + k
+	}
+	return fmt.Sprintf("%d,%s%08x", vid, k, cookie)
 }
 
 // CloneChunks deep-copies a chunk list (the filer mutates chunks on serialization).
@@ -414,18 +520,7 @@ type FilerWorld struct {
 // resolved through the master client's volume locations.
 func NewFilerWorld(r *Run, kind string, bm *BlobMaster) *FilerWorld {
 	w := &FilerWorld{R: r, Kind: kind, BM: bm}
-	w.Dir = r.SubDir("filer-" + kind)
-	switch kind {
-	case "leveldb":
-		w.Raw = &leveldb.LevelDBStore{}
-	case "leveldb2":
-		w.Raw = &leveldb2.LevelDB2Store{}
-	case "leveldb3":
-		w.Raw = &leveldb3.LevelDB3Store{}
-	default:
-		r.Must(fmt.Errorf("unknown store kind %q", kind), "NewFilerWorld")
-	}
-	r.Must(w.Raw.Initialize(mapConfig{kind + ".dir": w.Dir}, kind+"."), "initialize "+kind)
+	w.Raw, w.Dir = openRawStore(r, kind)
 	w.Store = NewCountingStore(w.Raw)
 	f := filer.NewFiler([]string{bm.MasterAddr}, grpc.WithInsecure(), "127.0.0.1", 0, "", "", "", func() {})
 	f.DirBucketsPath = "/buckets"
@@ -446,6 +541,36 @@ func NewFilerWorld(r *Run, kind string, bm *BlobMaster) *FilerWorld {
 		r.Must(errors.New("filer master client never received the volume location from the fake master"), "NewFilerWorld")
 	}
 	return w
+}
+
+func openRawStore(r *Run, kind string) (filer.FilerStore, string) {
+	var raw filer.FilerStore
+	switch kind {
+	case "leveldb":
+		raw = &leveldb.LevelDBStore{}
+	case "leveldb2":
+		raw = &leveldb2.LevelDB2Store{}
+	case "leveldb3":
+		raw = &leveldb3.LevelDB3Store{}
+	default:
+		r.Must(fmt.Errorf("unknown store kind %q", kind), "openRawStore")
+	}
+	dir := r.SubDir("filer-" + kind)
+	r.Must(raw.Initialize(mapConfig{kind + ".dir": dir}, kind+"."), "initialize "+kind)
+	return raw, dir
+}
+
+// FreshStore replaces the store behind the same Filer by a new empty one (the old
+// one is closed and removed). leveldb keeps every overwritten version and tombstone
+// of the few keys of a small path universe in its memtable, so listings get slower
+// and slower when one store is reused for thousands of cases; a whole new Filer per
+// batch of cases would be much more expensive than a new store.
+func (w *FilerWorld) FreshStore() {
+	old, oldDir := w.Raw, w.Dir
+	w.Raw, w.Dir = openRawStore(w.R, w.Kind)
+	w.Store.SetInner(w.Raw)
+	old.Shutdown()
+	_ = os.RemoveAll(oldDir)
 }
 
 // Close shuts the store down (the Filer's background goroutines stay; worlds are few).
